@@ -90,6 +90,31 @@ const TEMPLATES: &[(&str, bool)] = &[
     ("MATCH (n:P) SET n.v = n.id RETURN n.id, n.v", true),
     ("MERGE (n:P {id: 3}) RETURN n.name", true),
     ("MATCH (n:P) WHERE n.id = 2 DETACH DELETE n RETURN count(n) AS c", true),
+    // column order and names: a row is a mapping column -> value.  RETURN-less CALL … YIELD with
+    // the outputs in native order, reversed, a subset, aliased; YIELD … RETURN reordered and
+    // aliased; RETURN items reordered, aliased, repeated; RETURN *; writes returning several columns
+    ("CALL algo.pageRank('P', 'R') YIELD node, score", false),
+    ("CALL algo.pageRank('P', 'R') YIELD score, node", false),
+    ("CALL algo.pageRank('P', 'R') YIELD score", false),
+    ("CALL algo.pageRank('P', 'R') YIELD node", false),
+    ("CALL algo.pageRank('P', 'R') YIELD node AS n, score AS s", false),
+    ("CALL algo.pageRank('P', 'R') YIELD node, score RETURN score, node", false),
+    ("CALL algo.pageRank('P', 'R') YIELD node, score RETURN score AS s, node.id AS i, node.name", false),
+    ("CALL algo.wcc() YIELD node, componentId", false),
+    ("CALL algo.wcc() YIELD componentId, node", false),
+    ("CALL algo.wcc() YIELD componentId, node RETURN node.id, componentId", false),
+    ("CALL db.labels() YIELD label", false),
+    ("MATCH (n:P) RETURN n.name, n.id", false),
+    ("MATCH (n:P) RETURN n.id AS a, n.name AS b, n.id AS c", false),
+    ("MATCH (n:P) RETURN n.id, n.name, n.id", false),
+    ("MATCH (n:P) RETURN n.name AS id, n.id AS name", false),
+    ("MATCH (a:P)-[r:R]->(b:P) RETURN b.id, r.w, a.id, a.name, b", false),
+    ("MATCH (n:Q) RETURN *", false),
+    ("MATCH (a:P)-[r:R]->(b:P) RETURN *", false),
+    ("CREATE (n:L {k: 1, s: 'x'}) RETURN n.s, n.k, n", true),
+    ("MATCH (n:P) SET n.v = n.id RETURN n.v AS v, n.name AS name, n.id AS id, n", true),
+    ("MERGE (n:P {id: 2}) ON MATCH SET n.seen = 1 RETURN n.seen, n.name, n.id", true),
+    ("UNWIND [1, 2] AS x CREATE (n:L {k: x}) RETURN x, n.k, n", true),
     // parameters: neither front end accepts a parameter map, the engine is run without one
     ("MATCH (n:P) WHERE n.id = $p RETURN n.id", false),
     ("CREATE (n:L {k: $p})", true),
@@ -399,7 +424,8 @@ fn main() {
     // `Rng::new(s)` and `Rng::new(s + 1)` are the same stream shifted by one draw; fork once so
     // that consecutive seeds give unrelated cases
     let mut rng = Rng::new(args.seed).fork();
-    const RESP_NAMES: &[&str] = &["GRAPH.QUERY", "graph.query", "Graph.Query", "GRAPH.QUERY"];
+    // GRAPH.RO_QUERY is the same handler ("we don't enforce read-only yet", command.rs)
+    const RESP_NAMES: &[&str] = &["GRAPH.QUERY", "graph.query", "GRAPH.RO_QUERY", "graph.ro_query"];
 
     // ---- cases -------------------------------------------------------------------------
     let mut cases: Vec<Case> = vec![];
@@ -452,7 +478,9 @@ fn main() {
         for ti in 0..toks.len() {
             for cs in all_cs {
                 for ss in all_ss {
-                    push(&mut cases, &mut rng, ti, &Wrap::default(), cs, ss, (0, false), "");
+                    // the four spellings of the RESP command rotate over the styles
+                    let n = cases.len();
+                    push(&mut cases, &mut rng, ti, &Wrap::default(), cs, ss, (n % 4, n % 3 == 0), "");
                 }
             }
         }
@@ -622,7 +650,41 @@ fn main() {
             } else if code == 2 || code == 4 {
                 "graph-differs"
             } else {
-                "outcome-differs"
+                // rows are mappings column -> value: say what differs
+                let fe_canon = if fe == "resp" { &run.resp.canon } else { &run.http.canon };
+                let parts = |c: &str| -> Option<(String, Vec<Vec<String>>)> {
+                    let mut it = c.splitn(3, '|');
+                    if it.next()? != "ok" {
+                        return None;
+                    }
+                    let cols = it.next()?.to_string();
+                    let rows = it.next()?.split(';').map(|r| r.split(',').map(|x| x.to_string()).collect()).collect();
+                    Some((cols, rows))
+                };
+                match (parts(&run.eng.canon), parts(fe_canon)) {
+                    (Some((ec, er)), Some((fc, fr))) => {
+                        let norm = |rows: &Vec<Vec<String>>| {
+                            let mut v: Vec<Vec<String>> = rows
+                                .iter()
+                                .map(|r| {
+                                    let mut r = r.clone();
+                                    r.sort();
+                                    r
+                                })
+                                .collect();
+                            v.sort();
+                            v
+                        };
+                        if ec != fc {
+                            "header-differs"
+                        } else if norm(&er) == norm(&fr) {
+                            "values-under-wrong-column"
+                        } else {
+                            "outcome-differs"
+                        }
+                    }
+                    _ => "outcome-differs",
+                }
             };
             let sig = format!("{}:{}:{}", fe, if refused { "write-refused" } else { "mismatch" }, why);
             rep.count(&format!("spec_violation:{}", sig));
